@@ -906,3 +906,52 @@ def bare_program(gen: "Generator"):
             "bare": True,
         }
     raise RuntimeError("could not generate a bare program")
+
+
+def _vars_in(e, acc=None):
+    acc = set() if acc is None else acc
+    if isinstance(e, list):
+        if len(e) == 2 and e[0] == "v" and isinstance(e[1], str):
+            acc.add(e[1])
+        else:
+            for x in e:
+                _vars_in(x, acc)
+    return acc
+
+
+def cond_feeders(prog, prefix=()):
+    """Leaf paths of choices (sites / vmapped distributions in the same scope,
+    directly or through let-bound variables) that feed the predicate of a Cond:
+    resampling or moving them can switch the branch."""
+    out = set()
+    lets = {}
+    addr_kind = {}
+    for st in prog["body"]:
+        k = st["k"]
+        if k == "let":
+            lets[st["var"]] = _vars_in(st["e"])
+            continue
+        addr_kind[st["addr"]] = st
+        if k == "cond":
+            names = set(_vars_in(st["pred"]))
+            # expand let-bound names transitively
+            changed = True
+            while changed:
+                changed = False
+                for n in list(names):
+                    for m in lets.get(n, ()):
+                        if m not in names:
+                            names.add(m)
+                            changed = True
+            for n in names:
+                s2 = addr_kind.get(n)
+                if s2 is not None and (s2["k"] == "site" or (s2["k"] == "vmap" and "dist" in s2["callee"])):
+                    out.add(prefix + (n,))
+            out |= cond_feeders(st["T"], prefix + (st["addr"],))
+        elif k == "call":
+            out |= cond_feeders(st["prog"], prefix + (st["addr"],))
+        elif k == "vmap" and "dist" not in st["callee"]:
+            out |= cond_feeders(st["callee"], prefix + (st["addr"],))
+        elif k == "scan":
+            out |= cond_feeders(st["step"], prefix + (st["addr"],))
+    return out
